@@ -27,6 +27,9 @@ def run(rep, tier):
         if o["res"].startswith("big-object-differs"):
             rep.violation("%s/outcome-changes-when-the-object-exceeds-65535-bytes" % c["call"], {"case": c, "observed": o})
             continue
+        if o["res"].startswith("late-keys-object-differs"):
+            rep.violation("%s/outcome-changes-when-every-member-sorts-after-signatures" % c["call"], {"case": c, "observed": o})
+            continue
         if c["call"] == "sign":
             if o["res"] != c["res"]:
                 rep.violation("sign/result-%s-expected-%s" % (o["res"], c["res"]), {"case": c, "observed": o})
